@@ -15,6 +15,9 @@
 //       find name|group <hex> | count | prev <id|null>     findTestWithName/Group, countTests, getTestWithNext
 //       shellri <id> | willrun               shell->setRunIgnored() directly; willRun() of every shell
 //       list lg|ln|ll                        listTestGroupNames / listTestGroupAndCaseNames / listTestLocations
+//       otest <level> <group hex> <name hex> register an OrderedTestShell through the real OrderedTestInstaller (TEST_ORDERED);
+//                                            observed: the registry's list and the _nextOrderedTest chain.  Installers run
+//                                            during static initialisation: an otest after reverse/shuffle/undo/runner is skipped
 //       runner rep=<N|0> seed=<S|-> rev=<0|1> list=<none|lg|ln|ll> [scripted rand values...]
 //                                            the real CommandLineTestRunner (repeat loop, -b, -s, list modes)
 #include "common.h"
@@ -28,6 +31,7 @@
 #include "CppUTest/CommandLineArguments.h"
 #include "CppUTest/CommandLineTestRunner.h"
 #include "CppUTest/PlatformSpecificFunctions.h"
+#include "CppUTestExt/OrderedTest.h"
 
 #undef new
 
@@ -114,6 +118,12 @@ struct ScriptedShell : public UtestShell {
 struct ScriptedIgnoredShell : public IgnoredUtestShell {
     unsigned long id;
     ScriptedIgnoredShell(const char* g, const char* n, unsigned long i) : IgnoredUtestShell(g, n, "scripted.cpp", i + 1), id(i) {}
+    Utest* createTest() CPPUTEST_OVERRIDE { return new ScriptedTest(id); }
+};
+
+struct ScriptedOrderedShell : public OrderedTestShell {
+    unsigned long id;
+    explicit ScriptedOrderedShell(unsigned long i) : id(i) {}
     Utest* createTest() CPPUTEST_OVERRIDE { return new ScriptedTest(id); }
 };
 
@@ -242,6 +252,9 @@ void run_case(const vh::Case& c) {
     PlatformSpecificRand = rec_rand;
     PlatformSpecificSrand = rec_srand;
     TestRegistry reg;
+    reg.setCurrentRegistry(&reg);                    // OrderedTestShell::addOrderedTestToHead asks for the current registry
+    OrderedTestShell::setOrderedTestHead(0);
+    bool reordered = false;                           // a reverse/shuffle/undo/runner happened: static initialisation is over
     std::deque<std::string> strings;                 // keeps group/name storage alive (shells hold char*)
     std::vector<UtestShell*> shells;
     std::vector<FilterSpec> filters;
@@ -258,6 +271,26 @@ void run_case(const vh::Case& c) {
             UtestShell* s = w[1] == "i" ? (UtestShell*) new ScriptedIgnoredShell(g, n, id) : (UtestShell*) new ScriptedShell(g, n, id);
             shells.push_back(s); g_ids[s] = id;
             reg.addTest(s);
+        }
+        else if (w[0] == "otest" && w.size() >= 4 && !reordered) {
+            long long lv = vh::to_i64(w[1]);
+            if (lv > 2147483647LL) lv = 2147483647LL;
+            if (lv < -2147483647LL - 1) lv = -2147483647LL - 1;
+            vh::emit("> otest %lld %s %s", lv, w[2].c_str(), w[3].c_str());
+            strings.push_back(vh::unhex(w[2])); const char* g = strings.back().c_str();
+            strings.push_back(vh::unhex(w[3])); const char* n = strings.back().c_str();
+            unsigned long id = (unsigned long) shells.size();
+            ScriptedOrderedShell* s = new ScriptedOrderedShell(id);
+            shells.push_back(s); g_ids[s] = id;
+            { OrderedTestInstaller installer(*s, g, n, "scripted.cpp", id + 1, (int) lv); }
+            emit_order("order", reg, shells.size());
+            std::string oc = "ochain";
+            size_t steps = 0;
+            for (OrderedTestShell* t = OrderedTestShell::getOrderedTestHead(); t; t = t->getNextOrderedTest()) {
+                if (++steps > shells.size() + 2) { oc += " cycle"; break; }
+                char b[32]; snprintf(b, sizeof b, " %lu", idOf(*t)); oc += b;
+            }
+            vh::emit("%s", oc.c_str());
         }
         else if ((w[0] == "gfilter" || w[0] == "nfilter") && w.size() >= 3) {
             FilterSpec f; f.kind = w[0] == "gfilter" ? 0 : 1; f.flags = (unsigned) vh::to_u64(w[1]) & 3u; f.text = vh::unhex(w[2]);
@@ -291,7 +324,7 @@ void run_case(const vh::Case& c) {
         else if (w[0] == "cmdline") { vh::emit_op("cmdline"); viaCmdline = true; }
         else if (w[0] == "runignored") { vh::emit_op("runignored"); runIgnoredWanted = true; if (!viaCmdline) reg.setRunIgnored(); }
         else if (w[0] == "reverse") {
-            vh::emit_op("reverse");
+            vh::emit_op("reverse"); reordered = true;
             if (!emit_order("from", reg, shells.size())) continue;
             reg.reverseTests();
             emit_order("order", reg, shells.size());
@@ -300,7 +333,7 @@ void run_case(const vh::Case& c) {
             std::string op = "> shuffle " + w[1];
             g_scripted.clear();
             for (size_t j = 2; j < w.size(); j++) { g_scripted.push_back(vh::to_i64(w[j])); op += " " + w[j]; }
-            vh::emit("%s", op.c_str());
+            vh::emit("%s", op.c_str()); reordered = true;
             if (!emit_order("from", reg, shells.size())) { g_scripted.clear(); continue; }
             g_rands.clear(); g_srands.clear();
             reg.shuffleTests((size_t) vh::to_u64(w[1]));
@@ -330,7 +363,7 @@ void run_case(const vh::Case& c) {
             fs.remove(reg);
         }
         else if (w[0] == "undo") {
-            vh::emit_op("undo");
+            vh::emit_op("undo"); reordered = true;
             if (!emit_order("from", reg, shells.size())) continue;
             reg.unDoLastAddTest();
             emit_order("order", reg, shells.size());
@@ -394,7 +427,7 @@ void run_case(const vh::Case& c) {
                              " rev=" + (rev == "1" ? "1" : "0") + " list=" + lst;
             g_scripted.clear();
             for (size_t j = 1; j < w.size(); j++) if (w[j].find('=') == std::string::npos) { g_scripted.push_back(vh::to_i64(w[j])); op += " " + w[j]; }
-            vh::emit("%s", op.c_str());
+            vh::emit("%s", op.c_str()); reordered = true;
             if (!emit_order("from", reg, shells.size())) { g_scripted.clear(); continue; }
             std::vector<std::string> argvStore; std::vector<const char*> argv;
             filter_argv(filters, runIgnoredWanted, argvStore);
@@ -430,6 +463,8 @@ void run_case(const vh::Case& c) {
         }
         else vh::emit("> skip");
     }
+    reg.setCurrentRegistry(0);
+    OrderedTestShell::setOrderedTestHead(0);
     for (size_t j = 0; j < shells.size(); j++) delete shells[j];
 }
 
